@@ -214,7 +214,7 @@ Section CBatch.
   Proof.
     induction items as [|[[c m] recs] items IH]; intros pre st Bpre Hall HR Hch Hpre; cbn [cbatch_items].
     - split; [exact HR|]. exists []. repeat split; try constructor. intros b [].
-    - inversion Hch as [|? ? Hc Hch']; subst. cbn [fst] in Hc.
+    - inversion Hch as [|? ? Hc Hch']; subst. cbn [fst] in Hc. unfold item in *.
       assert (Hall' : pre ++ (c, m, recs) :: items = (pre ++ [(c, m, recs)]) ++ items) by (rewrite <- app_assoc; reflexivity).
       (* blocks of the prefix stay blocks of the longer prefix *)
       assert (Hpre' : forall b, In b Bpre -> count_chan (pre ++ (c, m, recs) :: items) (fst b) = 1%nat
@@ -223,11 +223,11 @@ Section CBatch.
       destruct (1 <? count_chan (pre ++ (c, m, recs) :: items) c)%nat eqn:Ecnt.
       { (* the channel occurs twice: rejected *)
         specialize (IH (pre ++ [(c, m, recs)]) st Bpre Hall' HR Hch' Hpre').
-        destruct (cbatch_items F f_may f_add st (pre ++ (c, m, recs) :: items) items) as [[[st1 rs] bs] ls]. cbv beta iota zeta in IH. Show.
+        destruct (cbatch_items F f_may f_add st (pre ++ (c, m, recs) :: items) items) as [[[st1 rs] bs] ls]. cbv beta iota zeta in IH.
         destruct IH as [H1 [B [E1 [E2 [E3 [E4 [E5 E6]]]]]]]. split; [exact H1|]. exists B.
-        repeat split; try assumption.
-        - intros b Hb. destruct (E4 b Hb) as [m0 [r0 H0]]. exists m0, r0. right. exact H0.
-        - cbn [spec_batch]. rewrite (proj2 (N.eqb_neq EInvalid 0)) by discriminate. exact E6. }
+        split; [exact E1|]. split; [exact E2|]. split; [exact E3|].
+        split; [intros b Hb; destruct (E4 b Hb) as [m0 [r0 H0]]; exists m0, r0; right; exact H0|]. split; [exact E5|].
+        cbn [spec_batch]. rewrite (proj2 (N.eqb_neq EInvalid 0)) by discriminate. exact E6. }
       apply Nat.ltb_ge in Ecnt.
       assert (Hcnt : count_chan (pre ++ (c, m, recs) :: items) c = 1%nat).
       { pose proof (count_chan_in (pre ++ (c, m, recs) :: items) c m recs) as H. specialize (H ltac:(apply in_or_app; right; left; reflexivity)). lia. }
@@ -246,17 +246,17 @@ Section CBatch.
         specialize (IH (pre ++ [(c, m, [])]) st1 Bpre Hall' H2 Hch' Hpre').
         destruct (cbatch_items F f_may f_add st1 (pre ++ (c, m, []) :: items) items) as [[[st2 rs] bs] ls]. cbv beta iota zeta in IH.
         destruct IH as [H3 [B [E1 [E2 [E3 [E4 [E5 E6]]]]]]]. split; [exact H3|]. exists B.
-        repeat split; try assumption.
-        - intros b Hb. destruct (E4 b Hb) as [m0 [r0 H0]]. exists m0, r0. right. exact H0.
-        - cbn [spec_batch]. rewrite N.eqb_refl. fold scur. rewrite Hlog, N.eqb_refl. cbn [length N.of_nat]. rewrite N.add_0_r, N.eqb_refl.
+        split; [exact E1|]. split; [exact E2|]. split; [exact E3|].
+        split; [intros b Hb; destruct (E4 b Hb) as [m0 [r0 H0]]; exists m0, r0; right; exact H0|]. split; [exact E5|].
+        cbn [spec_batch]. rewrite N.eqb_refl. fold scur. rewrite Hlog, N.eqb_refl. cbn [length N.of_nat]. rewrite N.add_0_r, N.eqb_refl.
           cbn [andb msgs_from]. exact E6. }
       destruct (compatibilityRowsFromRecords c (al_leo (as_log s c) + 1) (x :: recs)) as [rows|e] eqn:Ec.
       2:{ specialize (IH (pre ++ [(c, m, x :: recs)]) st1 Bpre Hall' H2 Hch' Hpre').
           destruct (cbatch_items F f_may f_add st1 (pre ++ (c, m, x :: recs) :: items) items) as [[[st2 rs] bs] ls]. cbv beta iota zeta in IH.
           destruct IH as [H3 [B [E1 [E2 [E3 [E4 [E5 E6]]]]]]]. split; [exact H3|]. exists B.
-          repeat split; try assumption.
-          - intros b Hb. destruct (E4 b Hb) as [m0 [r0 H0]]. exists m0, r0. right. exact H0.
-          - cbn [spec_batch].
+          split; [exact E1|]. split; [exact E2|]. split; [exact E3|].
+          split; [intros b Hb; destruct (E4 b Hb) as [m0 [r0 H0]]; exists m0, r0; right; exact H0|]. split; [exact E5|].
+          cbn [spec_batch].
             assert (Ee : (e =? 0) = false).
             { unfold compatibilityRowsFromRecords in Ec. clear - Ec.
               revert Ec. generalize (al_leo (as_log s c) + 1). generalize (x :: recs). intro l.
@@ -275,9 +275,9 @@ Section CBatch.
           specialize (IH (pre ++ [(c, m, x :: recs)]) st2 Bpre Hall' HR2 Hch' Hpre').
           destruct (cbatch_items F f_may f_add st2 (pre ++ (c, m, x :: recs) :: items) items) as [[[st3 rs] bs] ls]. cbv beta iota zeta in IH.
           destruct IH as [H3 [B [E1 [E2 [E3 [E4 [E5 E6]]]]]]]. split; [exact H3|]. exists B.
-          repeat split; try assumption.
-          - intros b Hb. destruct (E4 b Hb) as [m0 [r0 H0]]. exists m0, r0. right. exact H0.
-          - cbn [spec_batch].
+          split; [exact E1|]. split; [exact E2|]. split; [exact E3|].
+          split; [intros b Hb; destruct (E4 b Hb) as [m0 [r0 H0]]; exists m0, r0; right; exact H0|]. split; [exact E5|].
+          cbn [spec_batch].
             assert (Ee : (toChannelError e =? 0) = false).
             { unfold toChannelError. destruct (e =? EConflict) eqn:E0; [reflexivity|].
               (* validation errors are never 0 *)
